@@ -31,8 +31,12 @@ RULE = ("part1 (frames): payload length L x opcode {Text,Binary,Close,Ping,Pong}
         "payload pattern derived per case (enumerated: quick L in 0..1000, 65500..65570, 69990..70000; thorough every "
         "L in 0..70000) plus Hypothesis-drawn (L, opcode, mask, key, pattern, text prefix); oracle = own RFC 6455 "
         "encoder/decoder; non-trivial = L within +-3 of a length-form boundary (122..130, 65532..65539), distinct "
-        "by (L, opcode, mask, key, pattern). "
-        "part2 (streams): 1-5 masked client frames (Close only last, control frames <= 125 bytes) encoded by the "
+        "by (L, opcode, mask, key, pattern); plus the 16 FIN/RSV1-3 combinations of the first header byte x opcode x mask x "
+        "lengths {0, 5, 126} (bit positions on encode and parse-back). "
+        "part2 (streams): 1-5 masked client frames, or a burst of 6-300 small ones (a Close frame may appear anywhere; the "
+        "application may call close() after any read; a second connection may be open at the same time with interleaved "
+        "reads, or be abandoned mid-frame; Text may start with U+FEFF, NUL, separators, plane ends), control frames <= 125 "
+        "bytes, encoded by the "
         "reference encoder, cut into read chunks: exhaustive cut sets (all sets of <= k cuts over all or listed "
         "positions) for fixed streams, Hypothesis-drawn frames x cut sets (single read, frame-aligned, merged "
         "frames, fixed read size 1..65536, random positions, positions around headers/junctions); oracle = the "
@@ -41,8 +45,9 @@ RULE = ("part1 (frames): payload length L x opcode {Text,Binary,Close,Ping,Pong}
 ASSUMPTIONS = [
     "the harness's reference RFC 6455 codec (checked against the examples of RFC 6455 section 5.7) is trusted",
     "client streams are well-formed: FIN=1, RSV=0, masked, opcodes Text/Binary/Ping/Pong/Close only (the library "
-    "defines no continuation opcode), control frames carry <= 125 bytes, Text payloads are valid UTF-8, nothing "
-    "follows a Close frame",
+    "defines no continuation opcode), control frames carry <= 125 bytes, Text payloads are valid UTF-8; frames that "
+    "follow a Close frame, or arrive after the application called close(), are client frames like any other (the unchanged "
+    "library delivers them)",
     "the handler is driven as RequestFactory.process installs it (real Channel, ring buffer, handler and Route; "
     "fake request object collecting write()); no reactor, no sockets",
     "for a delivered Text frame either the decoded str or the raw bytes are accepted; for a Close frame the "
@@ -326,6 +331,49 @@ def check_frame(ctx, length, op, masked, key, pat, prefix="", via_send=False):
                      for n, a, b in zip(names, got, exp) if a != b]
             ctx.violation("ws-decode", "%s: parsed back with %s" % (what, "; ".join(diffs)), case)
     return length in NEAR_BOUNDARY
+
+
+def run_flagbits(spec, ctx):
+    """the four flag bits of the first header byte (FIN, RSV1..3; RFC 6455 5.2: bits 0..3) for every opcode x mask flag x
+    three lengths: a frame object carrying them serialises them at their RFC positions, and the RFC encoding parses back to
+    the same four bits"""
+    n = 0
+    for bits in range(16):
+        fin, r1, r2, r3 = (bits >> 3) & 1, (bits >> 2) & 1, (bits >> 1) & 1, bits & 1
+        for op in OPCODES:
+            for masked in (0, 1):
+                for length in (0, 5, 126):
+                    key, pat = derived(ctx.seed, length, op, masked)
+                    payload, text = make_payload(op, length, pat)
+                    case = {"part": "flagbits", "bits": bits, "op": op, "mask": masked, "len": length}
+                    ctx.case(case)
+                    n += 1
+                    b0 = (fin << 7) | (r1 << 6) | (r2 << 5) | (r3 << 4) | op
+                    ref_wire = bytes([b0]) + ref_encode(1, op, masked, key, payload)[1:]
+                    what = "%s len=%d mask=%d fin=%d rsv=%d%d%d" % (OPNAME[op], length, masked, fin, r1, r2, r3)
+                    try:
+                        f = build_frame(op, payload, text, masked, key)
+                        f.flags.fin, f.flags.rsv1, f.flags.rsv2, f.flags.rsv3 = fin, r1, r2, r3
+                        hdr = bytes(f.serializeHeader())
+                    except Exception as e:  # noqa
+                        ctx.violation("ws-encode-header", "%s: building/serialising raised %r" % (what, e), case)
+                        continue
+                    if hdr[:1] != ref_wire[:1]:
+                        ctx.violation("ws-encode-header", "%s: first header byte %s, RFC 6455 says %s" % (what, hdr[:1].hex(), ref_wire[:1].hex()), case)
+                    buf = WebSocketTemporaryRingBuffer(FakeRequest())
+                    buf._push(ref_wire + SENTINEL)
+                    try:
+                        g = readFrameFactory(buf)()
+                    except Exception as e:  # noqa
+                        ctx.violation("ws-decode", "%s: parsing the RFC 6455 encoding raised %r" % (what, e), case)
+                        continue
+                    got = (int(g.flags.fin), int(g.flags.rsv1), int(g.flags.rsv2), int(g.flags.rsv3), getattr(g.flags.opcode, "value", g.flags.opcode))
+                    if got != (fin, r1, r2, r3, op):
+                        ctx.violation("ws-decode", "%s: parsed back with fin/rsv1/rsv2/rsv3/opcode = %r" % (what, got), case)
+                    if bits != 8:
+                        ctx.nt(("flagbits", bits, op, masked, length))
+    ctx.label("flagbits-frames", n)
+    ctx.exhaustive_sub.add("first header byte: 16 FIN/RSV combinations x 5 opcodes x mask flag x lengths {0, 5, 126}")
 
 
 def run_enc(spec, ctx):
@@ -805,6 +853,7 @@ def run_hyp_stream(spec, ctx):
 # ------------------------------------------------------------------ plan / dispatch
 def plan(tier):
     specs = []
+    specs.append({"part": "flagbits"})
     if tier == "quick":
         specs.append({"part": "enc", "lengths": list(range(0, 1001))})
         specs.append({"part": "enc", "lengths": list(range(65500, 65571)) + list(range(69990, MAXLEN + 1))})
@@ -855,6 +904,8 @@ def run_shard(spec, ctx):
     part = spec["part"]
     if part == "enc":
         run_enc(spec, ctx)
+    elif part == "flagbits":
+        run_flagbits(spec, ctx)
     elif part == "hyp-frame":
         run_hyp_frame(spec, ctx)
     elif part == "cuts":
@@ -874,5 +925,7 @@ def replay_case(case, ctx):
                     case.get("prefix", ""), via_send=case.get("via_send", False))
     elif part == "stream":
         check_stream(ctx, case["frames"], case["cuts"])
+    elif part == "flagbits":
+        run_flagbits({}, ctx)
     else:
         raise ValueError("unknown case %r" % (case,))
